@@ -372,6 +372,8 @@ class Evaluator:
         if e == 'deref':
             if h == 'ref':
                 return self.read(st, v[1])
+            if h == 'pref':
+                return v[1]
             return ('proj', v, 'deref')
         if h == 'agg':
             head, fields, fnames = v[1], v[2], v[3]
@@ -431,6 +433,9 @@ class Evaluator:
             if txt.startswith('const '):
                 txt = txt[6:]
             if c.get('promoted') is not None:
+                v = self._promoted_value(c['def'], c['promoted'])
+                if v is not None:
+                    return ('pref', v)
                 return ('promoted', c['def'], c['promoted'])
             return ('c', txt)
         if c.get('zst'):
@@ -439,6 +444,30 @@ class Evaluator:
         if txt.startswith('const '):
             txt = txt[6:]
         return ('c', txt)
+
+    def _promoted_value(self, defpath, idx):
+        """Value a promoted constant (`&CONST_EXPR`) points to, evaluated over the same term domain."""
+        cache = getattr(self.F, '_promoted_cache', None)
+        if cache is None:
+            cache = self.F._promoted_cache = {}
+        key = (defpath, idx)
+        if key in cache:
+            return cache[key]
+        cache[key] = None
+        for b in self.F.bodies:
+            if b.defpath == defpath and b.promoted == idx:
+                try:
+                    ev = Evaluator(b, max_paths=64)
+                    rs = [r for r in ev.run() if r.end == 'return']
+                except Exception:
+                    rs = []
+                if len(rs) == 1 and rs[0].ret is not None:
+                    v = rs[0].ret
+                    if v[0] == 'ref':
+                        v = ev.final_read(rs[0], v[1])
+                    cache[key] = v
+                break
+        return cache[key]
 
     def operand(self, st, o):
         k = o['k']
@@ -452,8 +481,8 @@ class Evaluator:
     def deref_val(self, st, t):
         """Value behind a reference term (operators on refs compare values)."""
         n = 0
-        while t[0] == 'ref' and n < 6:
-            t = self.read(st, t[1])
+        while t[0] in ('ref', 'pref') and n < 6:
+            t = self.read(st, t[1]) if t[0] == 'ref' else t[1]
             n += 1
         return t
 
@@ -542,6 +571,9 @@ class Evaluator:
                 frm = self.F.ty_s(c['args'][0]['ty']) if c['args'] and 'ty' in c['args'][0] else None
                 res = ('cast', 'as_', args[0], to, frm)
             elif nm in CONST_FNS and not args and c.get('trait') in CONST_FN_TRAITS:
+                ty = self.F.ty_s(c['args'][0]['ty']) if c['args'] and 'ty' in c['args'][0] else '?'
+                res = ('k', nm, ty)
+            elif d in ('num_traits::zero', 'num_traits::one', 'num_traits::identities::zero', 'num_traits::identities::one') and not args:
                 ty = self.F.ty_s(c['args'][0]['ty']) if c['args'] and 'ty' in c['args'][0] else '?'
                 res = ('k', nm, ty)
             elif d == 'core::ops::Try::branch':
